@@ -4,15 +4,18 @@ import json, os
 V = os.path.dirname(os.path.dirname(os.path.abspath(__file__)))
 TECH = 'bounded symbolic execution of the real code (CBMC 6.11 + SAT) over symbolic inputs; counterexamples replayed natively'
 CHECKS = {
+ 'C01': dict(design='5.1', engine='B',
+   text='The real Message.cpp/String.cpp/ByteBuffer.cpp closure (clang IR -> ir2c -> CBMC), per message shape with every item value symbolic (all bit patterns of every numeric type, every raw byte, the what code): (1) building the Message through the public Add* API and flattening yields FlattenedSize() == reference size and exactly the bytes of the independent reference encoder; (2) the reference bytes are accepted and every value is read back bit-identically through Find*; (3) parsing the reference bytes and re-flattening reproduces them byte for byte with FlattenedSize() == length (bool bytes canonicalised). Round trip decode(encode(m)) == m follows through the reference bytes.',
+   note='Shapes of lib/wire.py (all common types, 1-4 items, 1-3 fields, one nesting level; thorough two). String CONTENT bytes are job constants. The combined API round trip incl. Message::operator== is thorough-only (does not finish in 300 s). Built with muscle\'s own -DDISABLE_OBJECT_POOLING and -DMUSCLE_AVOID_TAGGED_POINTERS and with -fno-inline; field-name hashing modelled by a deterministic hash. Translation validated per run by native differential execution of the whole closure.'),
  'C02': dict(design='5.2', engine='A+B',
    text='Bounded model checking of the real C parsers. MicroMessage.c: for every public read accessor and every exact buffer length N in the job table CBMC proves that NO N-byte input makes the code read/write outside the buffer, abort, or exceed a loop bound linear in N (solver-decided over all 2^(8N) inputs). MiniMessage.c (a heap-building parser that cannot be executed with symbolic sizes): for each message shape, every truncation length, trailing garbage, and every framing word set to each small value and to the boundary constants of the property, with all payload bytes symbolic: memory safety, termination, O(N) allocation budget, object reusable and destructible afterwards. C++ kernel (Engine B): every read primitive of DataUnflattener (incl. arbitrary seeks, counts and nested read limits) in sequences of three on an exactly-sized symbolic buffer keeps the cursor and every access inside the buffer.',
    note='Bounded: lengths/shapes of the job table only. Of the C++ parsers only the DataUnflattener kernel is covered: Message.cpp\'s field/array parsers and the C++ gateways\' input paths are NOT (a seeded change there was missed, DESIGN 10.6). Trusted: CBMC 6.11 C semantics, allocator never fails, printf is a no-op. Forming/comparing out-of-bounds pointers without dereferencing is not decided.'),
  'C03': dict(design='5.3', engine='A',
    text='Inductive step over I/O calls, decided by CBMC on the real MiniMessageGateway.c and MicroMessageGateway.c (+ MicroMessage.c): from ANY receiver state Recv(p) / sender state Send(q) (cursor anywhere in the frame), one DoInput/DoOutput call with any maxBytes and any short-read/short-write counts re-establishes the invariant, delivers exactly the frame body exactly when its last byte arrives, and reports exactly the bytes moved. Base case (fresh gateway = Recv(0)/Send(0)) included; the composition into whole streams is the written induction argument of DESIGN 5.3.',
    note='Only the two C gateways at this commit (C++ MessageIOGateway not built). Frames with body <= 6 (mini) / 14, 27 (micro) bytes in quick, up to 24 / 40 in thorough. Mini: the Message codec behind the gateway is cut to a model that checks it is handed exactly the body bytes; micro: the real MicroMessage.c is linked. zlib/templating/WebSocket/text gateways are outside.'),
- 'C08': dict(design='5.5', engine='A',
-   text='For each message shape with SYMBOLIC item values, CBMC proves that MicroMessage.c (UMAdd*) and MiniMessage.c (MMPut*+MMFlattenMessage) produce exactly the bytes of an independent reference encoder written from the documented layout (lib/wire.py), and that both parsers read exactly the values back from the reference bytes (MiniMessage additionally re-flattens to identical bytes). Agreement between implementations follows by transitivity through the reference.',
-   note='C implementations only at this commit: the C++ Message class and the 8-byte stream frame are NOT yet compared with the reference; Python is not executable symbolically here. MiniMessage multi-field/nested shapes only in the thorough tier (measured > 120 s). Shapes: lib/wire.py std_shapes.'),
+ 'C08': dict(design='5.5', engine='A+B',
+   text='For each message shape with SYMBOLIC item values, CBMC proves that the C++ Message class (Add*+Flatten), MicroMessage.c (UMAdd*) and MiniMessage.c (MMPut*+MMFlattenMessage) produce exactly the bytes of an independent reference encoder written from the documented layout (lib/wire.py), and that all three parsers read exactly the values back from the reference bytes (MiniMessage additionally re-flattens to identical bytes). Agreement between implementations follows by transitivity through the reference.',
+   note='Python is not executable symbolically here; the 8-byte stream frame is compared for the C gateways only (C03). C++ jobs: string content bytes are job constants, pools disabled (see C01). MiniMessage multi-field/nested shapes only in the thorough tier (measured > 120 s). Shapes: lib/wire.py std_shapes.'),
  'C10': dict(design='5.6', engine='B',
    text='Sequential histories on the real Ref/ConstRef/RefCountable code (clang IR -> ir2c -> CBMC): for every sequence of 3 (quick) / 4 (thorough) operation kinds on three Refs and two objects, with the operands of every operation symbolic, after every step: destructor ran exactly once iff the last Ref is gone and never before, reference count = number of designating Refs.',
    note='The schedule quantifier of C10 (interleavings of atomic operations) and ObjectPool are NOT covered: only single-threaded histories. Built with -DMUSCLE_AVOID_TAGGED_POINTERS (CBMC cannot satisfy the alignment assertion of tagged pointers); translation validated per run by native differential execution.'),
@@ -38,7 +41,7 @@ NA = {
  'C19': NA_DESIGN + 'pending/deferred Hashtables of message queues per client, real Thread objects and condition variables',
 }
 PENDING = {  # claimed by DESIGN.md but whose check is not built yet at this commit: listed as not claimed until it exists
- 'C01': '5.1', 'C09': '5.9', 'C12': '5.7', 'C14': '5.8', 'C15': '5.10',
+ 'C09': '5.9', 'C12': '5.7', 'C14': '5.8', 'C15': '5.10',
 }
 def main():
     m = {'version': 1,
